@@ -47,7 +47,9 @@ META = {
                 'doit/doit_cmd.py::DoitMain.run'],
     'technique': ('Lean 4 invariant proofs over the small-step transition system of TaskDispatcher + Runner / MRunner / '
                   'MThreadRunner (M1): dependency-path invariant of ExecNode.ancestors and of the wait sets, rank '
-                  'descent over the waiting queue for _check_deadlock, dispatched-set accounting for "hold on"; '
+                  'descent over the waiting queue for _check_deadlock, dispatched-set accounting for "hold on"; order '
+                  'invariant on terminal reports (age of the first report as a rank along the closure graph) for the cycle '
+                  'diagnosis; a lexicographic termination measure decreasing on every transition of both systems; '
                   'counterexample theorems for the dispatcher before the repairs; trace-acceptance correspondence of the '
                   'real doit (three runners, every run under a watchdog) on all small digraphs and sampled larger ones; '
                   'Lean monitor of the full property statement on every implementation run, Python cross-check'),
@@ -61,19 +63,34 @@ META = {
                    'dispatched node is queued / executing / has a result pending / is being fed back (no hypothesis on the '
                    'graph: this is the repair of F-C09a); C09_dispatched_accounting; C09_cyclic_ends_run_* -- a raised cyclic '
                    'error ends the run with exit code 3; counterexample theorems for the dispatcher before the repair (serial '
-                   'AttributeError, parallel hang); instances of the diagnosis.  NOT proved, monitored on every '
-                   'implementation run instead: termination of every run (C09_terminates_full) and "a cyclic closure is '
-                   'always diagnosed, no task on the cycle starts" (C09_cycle_diagnosed_full).  The model is tied to doit on '
+                   'AttributeError, parallel hang).  C09_cycle_diagnosed_serial / _parallel / C09_cycle_diagnosed (FULL, every '
+                   'graph, all three runners): a run that ends normally (no exception, not stopped by a failure) has no cycle '
+                   'in the closure graph the monitor computes from its trace (cycleTasks = []), and in every reachable state '
+                   'no task on a cycle of that graph has been started; C09_cycle_task_never_reported (such a task is never '
+                   'reported at all); C09_cycle_exit3 (cyclic closure, run not cut short, no internal error => cyclic error '
+                   'and exit code 3); C09_report_after_dependencies (the order invariant behind it: the terminal report of a '
+                   'task is younger than the terminal report of every closure-graph successor).  Hypothesis BoundedCalc: every '
+                   'calc_dep name is a task index < nTasks, i.e. the monitor has enough fixed-point fuel -- needed: '
+                   'C09_cycle_diagnosed_fuel_counterexample.  C09_terminates_serial / _parallel / C09_terminates (FULL, all '
+                   'three runners): on a finite task table (FiniteTable: every name mentioned is an index < N; needed, the '
+                   'model allows infinite tables) there is no infinite run -- for every graph, oracle, set-iteration order, '
+                   'worker interleaving and numProcess every transition decreases a lexicographic measure '
+                   '(C09_serial_step_decreases / C09_parallel_step_decreases: tasks without final status, names without a '
+                   'node, calc_deps still to be delivered, weighted list lengths + generator position + queues + runner pc '
+                   'with the start/feed loop counters).  Every clause of the property is now a theorem; the monitor still '
+                   'evaluates the full statement on every implementation run.  The model is tied to doit on '
                    'every run by trace acceptance of the real doit under a watchdog on all digraphs of the small scope x '
                    'selections x runners and on sampled graphs with cycles through every edge kind.'),
-    'level_note': ('partial: C09_terminates_full and C09_cycle_diagnosed_full are stated (def ... : Prop) but not proved; the '
+    'level_note': ('full since wave 3: C09_terminates and C09_cycle_diagnosed are theorems (hypotheses: FiniteTable / '
+                   'BoundedCalc, i.e. task names are indices below the number of tasks; exit code 3 is concluded under "no '
+                   'internal error", halt != crash, which is proved unreachable only for the "hold on" paths).  The '
                    'monitor evaluates the full property statement (terminates / exit 3 + Cyclic diagnostic iff the closure '
                    'graph of the run has a cycle / no task on a cycle executed / acyclic => no cycle error, no hang, no '
                    'internal hold-on crash) on every run.  Acyclic is a Prop (existence of a rank function), decided per '
                    'case by a graph search in the harness / driver.  Thread mode: the Cyclic diagnostic is also looked for in '
                    'the stream of an overlapping python-action, where the process-wide sys.stderr swap of doit (open finding '
                    'F-C17a of C17) routes it.  A worker process alive 1.5 s after DoitMain.run returned counts as a hang.'),
-    'partial_theorems': ['C09_terminates_full (def, not proved)', 'C09_cycle_diagnosed_full (def, not proved)'],
+    'partial_theorems': [],
     'rule': ('(1) exhaustive: every digraph (self-loops included) on <=3 tasks (quick) / <=4 tasks (thorough) over task_dep '
              'x every selection (none, and every ordered non-empty list of distinct task names; 4 tasks: none + sampled) x '
              'serial / thread k=2 (k=3 for the whole-graph selection) / process (sampled); (2) structured families: '
